@@ -124,11 +124,13 @@ import "github.com/google/gopacket"
 //@ props C06 C01
 //@ requires [buf] bufSmall(b)
 //@ requires [C06.rakp3-authlen] len(r.AuthCode) <= 32
+//@ requires [C06.rakp3-sep] otherarray(r.AuthCode, bufBytes(b)) // the code to send is not itself part of the buffer being written
+//@ split r.Status == StatusCodeOK
+//@ ensures [C06.rakp3-authcode] r.Status == StatusCodeOK ==> forall(qk, 0, len(old(r.AuthCode)), bufBytes(b)[8+qk] == old(r.AuthCode[qk]))
+//@ ensures [C06.rakp3-payload-err] r.Status != StatusCodeOK ==> forall(qk, 0, len(old(bufBytes(b))), bufBytes(b)[8+qk] == old(bufBytes(b)[qk]))
 //@ ensures [C06.rakp3-head] bufBytes(b)[0] == r.Tag && bufBytes(b)[1] == uint8(r.Status) && bufBytes(b)[2] == 0 && bufBytes(b)[3] == 0 && le32(bufBytes(b), 4) == r.ManagedSystemSessionID
 //@ ensures [C06.rakp3-ok] result == nil && bufValid(b)
 //@ ensures [C06.rakp3-len] len(bufBytes(b)) == len(old(bufBytes(b)))+8+ite(r.Status == StatusCodeOK, len(old(r.AuthCode)), 0)
-// not claimed (solver budget, see DESIGN.md 12.5): ensures [C06.rakp3-bytes~] bufBytes(b)[0] == r.Tag && bufBytes(b)[1] == uint8(r.Status) && bufBytes(b)[2] == 0 && bufBytes(b)[3] == 0 && le32(bufBytes(b), 4) == r.ManagedSystemSessionID &&
-//      (r.Status == StatusCodeOK ==> forall(qk, 0, len(r.AuthCode), bufBytes(b)[8+qk] == r.AuthCode[qk]))
 // not claimed (solver budget, see DESIGN.md 12.5): ensures [C06.rakp3-payload~] forall(qk, 0, len(old(bufBytes(b))), bufBytes(b)[8+ite(r.Status == StatusCodeOK, len(old(r.AuthCode)), 0)+qk] == old(bufBytes(b)[qk]))
 
 // ---- authentication_payload.go / integrity_payload.go / confidentiality_payload.go (13.17)
@@ -163,11 +165,14 @@ import "github.com/google/gopacket"
 //@ props C06 C12 C01
 //@ requires [buf] bufSmall(b) && len(bufBytes(b)) == 0
 //@ ensures [C06.opensessreq-ok] result == nil && bufValid(b) && len(bufBytes(b)) == 32
+//@ ensures [C06+C12.opensessreq-algos] bufBytes(b)[12] == ite(o.AuthenticationPayload.Wildcard, uint8(0), uint8(o.AuthenticationPayload.Algorithm)) && bufBytes(b)[20] == ite(o.IntegrityPayload.Wildcard, uint8(0), uint8(o.IntegrityPayload.Algorithm)) &&
+//@    bufBytes(b)[28] == ite(o.ConfidentialityPayload.Wildcard, uint8(0), uint8(o.ConfidentialityPayload.Algorithm))
+//@ at IntegrityPayload).Serialise assert [C06.opensessreq-auth-written] len(bufBytes(b)) == 16 && bufBytes(b)[8] == 0 && bufBytes(b)[9] == 0 && bufBytes(b)[10] == 0 && bufBytes(b)[11] == ite(o.AuthenticationPayload.Wildcard, uint8(0), uint8(8)) &&
+//@    bufBytes(b)[12] == ite(o.AuthenticationPayload.Wildcard, uint8(0), uint8(o.AuthenticationPayload.Algorithm)) && bufBytes(b)[13] == 0 && bufBytes(b)[14] == 0 && bufBytes(b)[15] == 0
+//@ at ConfidentialityPayload).Serialise assert [C06.opensessreq-integ-written] len(bufBytes(b)) == 24 && bufBytes(b)[16] == 1 && bufBytes(b)[17] == 0 && bufBytes(b)[18] == 0 && bufBytes(b)[19] == ite(o.IntegrityPayload.Wildcard, uint8(0), uint8(8)) &&
+//@    bufBytes(b)[20] == ite(o.IntegrityPayload.Wildcard, uint8(0), uint8(o.IntegrityPayload.Algorithm)) && bufBytes(b)[21] == 0 && bufBytes(b)[22] == 0 && bufBytes(b)[23] == 0
+//@ at ConfidentialityPayload).Serialise assert [C06.opensessreq-auth-kept] bufBytes(b)[11] == ite(o.AuthenticationPayload.Wildcard, uint8(0), uint8(8)) && bufBytes(b)[12] == ite(o.AuthenticationPayload.Wildcard, uint8(0), uint8(o.AuthenticationPayload.Algorithm))
 //@ ensures [C06.opensessreq-head~] bufBytes(b)[0] == o.Tag && bufBytes(b)[1] == uint8(o.MaxPrivilegeLevel)%16 && bufBytes(b)[2] == 0 && bufBytes(b)[3] == 0 && le32(bufBytes(b), 4) == o.SessionID
-// not claimed (solver budget, see DESIGN.md 12.5): ensures [C06.opensessreq-auth] bufBytes(b)[8] == 0 && bufBytes(b)[9] == 0 && bufBytes(b)[10] == 0 && bufBytes(b)[11] == ite(o.AuthenticationPayload.Wildcard, uint8(0), uint8(8)) &&
-//      bufBytes(b)[12] == ite(o.AuthenticationPayload.Wildcard, uint8(0), uint8(o.AuthenticationPayload.Algorithm)) && bufBytes(b)[13] == 0 && bufBytes(b)[14] == 0 && bufBytes(b)[15] == 0
-// not claimed (solver budget, see DESIGN.md 12.5): ensures [C06.opensessreq-integ] bufBytes(b)[16] == 1 && bufBytes(b)[17] == 0 && bufBytes(b)[18] == 0 && bufBytes(b)[19] == ite(o.IntegrityPayload.Wildcard, uint8(0), uint8(8)) &&
-//      bufBytes(b)[20] == ite(o.IntegrityPayload.Wildcard, uint8(0), uint8(o.IntegrityPayload.Algorithm)) && bufBytes(b)[21] == 0 && bufBytes(b)[22] == 0 && bufBytes(b)[23] == 0
 //@ ensures [C06.opensessreq-conf~] bufBytes(b)[24] == 2 && bufBytes(b)[25] == 0 && bufBytes(b)[26] == 0 && bufBytes(b)[27] == ite(o.ConfidentialityPayload.Wildcard, uint8(0), uint8(8)) &&
 //@    bufBytes(b)[28] == ite(o.ConfidentialityPayload.Wildcard, uint8(0), uint8(o.ConfidentialityPayload.Algorithm)) && bufBytes(b)[29] == 0 && bufBytes(b)[30] == 0 && bufBytes(b)[31] == 0
 
@@ -181,15 +186,22 @@ import "github.com/google/gopacket"
 //@ split m.Function/2 == 0x17
 //@ requires [C06.msg-range] m.RemoteLUN <= 3 && m.LocalLUN <= 3 && m.Sequence <= 63 && m.Function <= 63 && m.Enterprise < 1<<24
 //@ ensures [C06.msg-ok] result == nil && bufValid(b)
+//@ at checksum assert [C06.msg-checksum-ranges] aliases(arg[[]byte](0), bufBytes(b), 0, 2) || aliases(arg[[]byte](0), bufBytes(b), 3, len(bufBytes(b)))
+//@ at AppendBytes assert [C06.msg-header-written] bufBytes(b)[0] == uint8(m.RemoteAddress) && bufBytes(b)[1] == uint8(m.Function)*4+uint8(m.RemoteLUN) && bufBytes(b)[2] == m.Checksum1 &&
+//@    bufBytes(b)[3] == uint8(m.LocalAddress) && bufBytes(b)[4] == m.Sequence*4+uint8(m.LocalLUN) && bufBytes(b)[5] == uint8(m.Command)
+//@ at AppendBytes assert [C06.msg-checksum1-value] opts.ComputeChecksums ==> m.Checksum1 == -(uint8(m.RemoteAddress)+(uint8(m.Function)*4+uint8(m.RemoteLUN)))
+//@ at AppendBytes assert [C06.msg-prefix-written] (m.Function%2 == 1 ==> bufBytes(b)[6] == uint8(m.CompletionCode)) && (m.Function/2 == 0x16 ==> bufBytes(b)[6+int(m.Function%2)] == uint8(m.Body)) &&
+//@    (m.Function/2 == 0x17 ==> le24(bufBytes(b), 6+int(m.Function%2)) == uint32(m.Enterprise))
+//@ at AppendBytes assert [C06.msg-length-written] len(bufBytes(b)) == len(old(bufBytes(b)))+6+int(m.Function%2)+ite(m.Function/2 == 0x16, 1, ite(m.Function/2 == 0x17, 3, 0))
+// not claimed (solver budget, see DESIGN.md 14.7): at AppendBytes assert [C06.msg-payload-kept] forall(qk, 0, len(old(bufBytes(b))), bufBytes(b)[6+int(m.Function%2)+ite(m.Function/2 == 0x16, 1, ite(m.Function/2 == 0x17, 3, 0))+qk] == old(bufBytes(b)[qk]))
+//@ at AppendBytes assert [C06.msg-checksum2-value] opts.ComputeChecksums ==> m.Checksum2 == -bsum8(bufBytes(b), 3, len(bufBytes(b)))
+//@ ensures [C06.msg-trailer] bufBytes(b)[len(bufBytes(b))-1] == m.Checksum2 && len(bufBytes(b)) == len(old(bufBytes(b)))+7+int(m.Function%2)+ite(m.Function/2 == 0x16, 1, ite(m.Function/2 == 0x17, 3, 0))
 //@ ensures [C06.msg-len~] len(bufBytes(b)) == len(old(bufBytes(b)))+7+int(m.Function%2)+ite(m.Function/2 == 0x16, 1, ite(m.Function/2 == 0x17, 3, 0))
 //@ ensures [C06.msg-head~] bufBytes(b)[0] == uint8(m.RemoteAddress) && bufBytes(b)[1] == uint8(m.Function)*4+uint8(m.RemoteLUN) && bufBytes(b)[3] == uint8(m.LocalAddress) &&
 //@    bufBytes(b)[4] == m.Sequence*4+uint8(m.LocalLUN) && bufBytes(b)[5] == uint8(m.Command)
 //@ ensures [C06.msg-code~] m.Function%2 == 1 ==> bufBytes(b)[6] == uint8(m.CompletionCode)
 //@ ensures [C06.msg-body~] m.Function/2 == 0x16 ==> bufBytes(b)[6+int(m.Function%2)] == uint8(m.Body)
-// not claimed (solver budget, see DESIGN.md 12.5): ensures [C06.msg-oem] m.Function/2 == 0x17 ==> le24(bufBytes(b), 6+int(m.Function%2)) == uint32(m.Enterprise)
 //@ ensures [C06.msg-checksum1~] opts.ComputeChecksums ==> bufBytes(b)[2] == -(bufBytes(b)[0]+bufBytes(b)[1])
-// not claimed (solver budget, see DESIGN.md 12.5): ensures [C06.msg-checksum2] opts.ComputeChecksums ==> bufBytes(b)[len(bufBytes(b))-1] == -bsum8(bufBytes(b), 3, len(bufBytes(b))-1)
-// not claimed (solver budget, see DESIGN.md 12.5): ensures [C06.msg-payload] forall(qk, 0, len(old(bufBytes(b))), bufBytes(b)[len(bufBytes(b))-1-len(old(bufBytes(b)))+qk] == old(bufBytes(b)[qk]))
 
 // ---- v1session.go (IPMI v1.5 13.6)
 
@@ -252,9 +264,9 @@ import "github.com/google/gopacket"
 //@ at executeHash assert [C03.sig-range] aliases(arg[[]byte](1), bufBytes(b), 0, len(bufBytes(b)))
 //@ at executeHash assert [C03.sig-length] len(bufBytes(b)) == ite(s.PayloadType == PayloadTypeOEM, 18, 12) + len(old(bufBytes(b))) + int(s.Pad) + 2
 //@ at executeHash assert [C03.sig-aligned] opts.FixLengths ==> len(bufBytes(b)) % 4 == 0 && s.Pad <= 3
-// not claimed (solver budget, see DESIGN.md 14.7): at executeHash assert [C03.sig-trailer~] bufBytes(b)[len(bufBytes(b))-1] == 0x07 && bufBytes(b)[len(bufBytes(b))-2] == s.Pad &&
+// not claimed (solver budget, see DESIGN.md 14.7): at executeHash assert [C03.sig-trailer] bufBytes(b)[len(bufBytes(b))-1] == 0x07 && bufBytes(b)[len(bufBytes(b))-2] == s.Pad &&
 //    forall(qk, 0, int(s.Pad), bufBytes(b)[len(bufBytes(b))-3-qk] == 0xff)
-// not claimed (solver budget, see DESIGN.md 14.7): at executeHash assert [C03.sig-header~] bufBytes(b)[0] == 6 && bufBytes(b)[1] == uint8(s.PayloadType)|ite(s.Encrypted, uint8(0x80), uint8(0))|0x40 &&
+// not claimed (solver budget, see DESIGN.md 14.7): at executeHash assert [C03.sig-header] bufBytes(b)[0] == 6 && bufBytes(b)[1] == uint8(s.PayloadType)|ite(s.Encrypted, uint8(0x80), uint8(0))|0x40 &&
 //    le32(bufBytes(b), ite(s.PayloadType == PayloadTypeOEM, 8, 2)) == s.ID && le32(bufBytes(b), ite(s.PayloadType == PayloadTypeOEM, 12, 6)) == s.Sequence &&
 //    le16(bufBytes(b), ite(s.PayloadType == PayloadTypeOEM, 16, 10)) == s.Length
 //@ ensures [C03.v2-ok] result == nil && bufValid(b)
